@@ -177,7 +177,8 @@ int tls13_gcm_decrypt(const BLOCK_CIPHER_KEY *key, const uint8_t iv[12],
 	}
 	// remove padding, get record_type
 	*record_type = 0;
-	while (mlen--) {
+	while (mlen) {
+		mlen--;
 		if (out[mlen] != 0) {
 			*record_type = out[mlen];
 			break;
